@@ -7,6 +7,11 @@ V = Path(__file__).resolve().parent.parent
 TECH = "TLA+ specification model-checked with TLC, bound to the implementation by trace validation (TLC checks recorded implementation traces against the abstract spec) and replay of TLC-generated cases/behaviours"
 
 CLAIMS = {
+    "C11": {
+        "text": "Specification Directives: a filter is a sequence of [target prefix, span name, field, value, level] directives; A states the property declaratively (most specific matching static directive decides; a span-scoped directive contributes its level while a span matching it by target, name, field presence and recorded value is entered, and for that span itself) and M is the code's mechanism (ordered directive sets with replacement, scope stack of levels pushed on enter / popped on exit, by_id table, statics / dynamics max-level gates and the published hint). TLC explores every filter of <= 2 directives from a 36-directive universe x {Targets, EnvFilter} x every well-nested script over 2 span handles and checks in every reachable state that M's decision for all 40 event metadata equals A's, span decisions are allowed ones, would_enable equals actual filtering, Targets == EnvFilter on static filters, the stack equals the entered tracked spans, and the hint hides nothing (thorough: larger span universe and a negative control with the seeded design error). Binding: 500/6000 directive strings (0-5 directives, level spellings in any case / digits / bare levels / bare targets / empty level / empty segments / duplicates) are parsed by the real Targets and EnvFilter, installed as global layer and as per-layer filter, plus the re-parsed Display output of each; one script of real macro callsites (spans with names and field values, record, enter, exit, close, 40-event probes) runs against each of the 6 stacks and TLC validates every reply, the would_enable table and the Display round trips against A.",
+        "note": "Where the property text leaves room the spec allows a set of answers for SPAN metadata (field-name directives applied to spans; whether a span matching a span-scoped directive is enabled above that directive's level); events have exactly one allowed answer. Assumptions: one field per directive, a field recorded at most once and not while entered, well-nested enter/exit on one thread. F21, F22, F25 were found here and fixed; F23 / F24 (Targets taking bracket syntax for a target name; comma inside braces) are reported as KNOWN-FINDING.",
+        "ref": "4 (C11)",
+    },
     "C04": {
         "text": "Mechanism specification RegistrationRace at the granularity of each atomic operation and lock acquisition (MacroCallsite interest byte and UNREGISTERED/REGISTERING/REGISTERED CAS, callsite::register under the read lock with the lock-free push as load / store-next / CAS, register_dispatch and rebuild under the write lock re-folding one callsite at a time, MAX_LEVEL, scoped defaults): TLC explores every interleaving of three 2-3 thread scenarios and checks no deadlock, a thread's own installed collector judges its emissions (never delivered to a rejecting collector, never missed), quiescence (every listed callsite offered to every live collector, interest and MAX_LEVEL admit what live collectors accept, list complete) and termination. Binding: the real code is run under a cooperative scheduler that releases one thread at a time between cfg-guarded yield points placed at those same operations; schedules are TLC -simulate thread-choice sequences of the model, all schedules with <= 1-2 preemptions (sampled in quick) and seeded random ones over 7 scenarios; TLC validates every run against the interleaving-independent abstract verdict (RaceTrace) incl. a quiescent round over all callsites.",
         "note": "Sequentially consistent interleavings only. A third of the runs ignore the lock notes and detect real blocking by time-out, so that a lock released earlier than annotated is still raced. Hooks: b56ccfa, 833e06c.",
